@@ -631,6 +631,7 @@ func createTimeFunctions() {
 			log.Infof("Sleeping for %v", durDur)
 			return s.Error(terminal.SleepWithContext(s.Context, durDur))
 		},
+		DontCache: true, // the time spent is the point.
 	})
 	MustCreate(object.Extension{
 		Name:     "time.info",
